@@ -1053,8 +1053,8 @@ func contains(xs []int, x int) bool {
 }
 
 func exec(c px.Context, op string, steps []sx.Sexp) core.Result {
-	if op == "res" {
-		return execRes(c, steps)
+	if op == "res" || op == "resp" {
+		return execRes(c, steps, op == "resp")
 	}
 	if op != "hist" {
 		return core.Result{Out: "bad-op", Pred: "FAIL harness-bad-op " + op}
